@@ -207,6 +207,12 @@ def check(case):
         if exc0 is not None:
             return r.fail("crash:%s" % type(exc0).__name__, "first fit of the used selector: %r" % exc0)
         r.count("fits_on_used_selector")
+        # the caller refills the same array objects in place and passes them again
+        Xo[...] = X
+        X = Xo
+        if yo is not None:
+            yo[...] = y
+            y = yo
     rec = sel.StepRecorder(s, _snapshot)
     if not rec.ok:
         DEGRADED.add("no per-step snapshots (_update_post_selection not wrappable)")
